@@ -745,6 +745,11 @@ type FirstHit struct {
 	Down  bool            // the search runs from First downwards and is exhausted when e < Low
 	Low   *RF
 	Pair  int // the test reads two adjacent elements: e and e+Pair (±1)
+	// Peeled: the search proper starts with the loop's SECOND iteration (the first one handles a
+	// special first element and is decided separately): First is the index of that iteration, and
+	// Aux gives the loop-carried quantities that are constant from then on (their constant value)
+	Peeled bool
+	Aux    map[AtomID]*RF
 }
 
 // FirstHitScan decides that the loop headed by hdr in fc is the search sp,
@@ -763,6 +768,12 @@ func (b *B) FirstHitScan(rule, construct, where string, fc *FC, hdr *ssa.BasicBl
 	}
 	exits := fc.ExitEdges(hdr)
 	cont := fc.ContinueCond(hdr)
+	if len(sp.Aux) > 0 {
+		cont = cont.Subst(sp.Aux)
+		for i := range exits {
+			exits[i].Cond = exits[i].Cond.Subst(sp.Aux)
+		}
+	}
 	// the index read by the tests
 	var e *RF
 	var cands []*RF
@@ -814,6 +825,23 @@ func (b *B) FirstHitScan(rule, construct, where string, fc *FC, hdr *ssa.BasicBl
 		return false
 	}
 	ei, en := fc.Recurrence(e)
+	if sp.Peeled {
+		// the index of the second iteration: the next value with every counter at its start
+		first := map[AtomID]*RF{}
+		for _, in := range hdr.Instrs {
+			ph, ok := in.(*ssa.Phi)
+			if !ok {
+				break
+			}
+			q := fc.Val(ph)
+			if qa := q.SingleAtom(); qa != nil && X.phiOf[qa.ID] == ph {
+				if qi, _ := recurrenceOrNil(fc, q); qi != nil {
+					first[qa.ID] = qi
+				}
+			}
+		}
+		ei = en.Subst(first)
+	}
 	if !ei.Equal(sp.First) && !X.EquivByCases(ei, sp.First, 0) {
 		r.Fail(rule, construct, where, "the first index examined is "+clip(ei.String(), 100)+", not "+clip(sp.First.String(), 100))
 		return false
@@ -848,6 +876,9 @@ func (b *B) FirstHitScan(rule, construct, where string, fc *FC, hdr *ssa.BasicBl
 		}
 		v = fc.resolveAlongEdge(ee.From, ee.To, v)
 		v = fc.resolveExitPhis(l, ee.To, v)
+		if len(sp.Aux) > 0 {
+			v = v.Subst(sp.Aux)
+		}
 		as := []Assumption{{Cond: ee.Cond, True: true}}
 		switch {
 		case X.EvalCond(hit, as) == True:
